@@ -25,10 +25,12 @@ impl<'a, K, V> core::ops::Deref for Ref<'a, K, V> {
 pub struct Entry<'a, V> { pub slot: &'a mut Option<V> }
 
 pub uninterp spec fn default_val<V>() -> V;
-pub broadcast axiom fn axiom_default_vec<T>()
-    ensures #[trigger] default_val::<Vec<T>>()@ == Seq::<T>::empty();
-pub broadcast axiom fn axiom_default_hashset()
-    ensures #[trigger] default_val::<HashSet<String>>()@ == Set::<String>::empty();
+pub mod dm_ax {
+    use super::*;
+    pub broadcast axiom fn axiom_default_vec<T>()
+        ensures #[trigger] default_val::<Vec<T>>()@ == Seq::<T>::empty();
+}
+pub use dm_ax::*;
 
 impl<K: KeyView, V> DashMap<K, V> {
     pub uninterp spec fn m(&self) -> Map<K::KV, V>;
@@ -94,7 +96,7 @@ impl<K: KeyView, V> DashMap<K, V> {
         ensures r.obeys_prophetic_iter_laws(), r.decrease() is Some,
             r.remaining().len() == self.m().dom().len(),
             forall|i: int| 0 <= i < r.remaining().len() ==>
-                self.m().contains_key(#[trigger] r.remaining()[i].k.kview())
+                self.m().contains_key((#[trigger] r.remaining()[i]).k.kview())
                 && *r.remaining()[i].v == self.m()[r.remaining()[i].k.kview()],
             forall|i: int, j: int| 0 <= i < j < r.remaining().len() ==>
                 r.remaining()[i].k.kview() != r.remaining()[j].k.kview(),
